@@ -1,7 +1,7 @@
 (* C08 - Stack, predicate, ALU and memory operations compute their documented results.  Statements only.
    `op_spec` (Spec/Ops.v) is the declarative reading of crates/asm-spec/asm.yml: stack top first,
    `Some (stack', memory')` = documented result, `None` = the operation fails. *)
-From EB Require Import Vm.Exec Spec.Ops Proofs.OpsRefine Proofs.OpsRefine3 Proofs.OpsRefineAll Proofs.OpsAlgebra.
+From EB Require Import Vm.Exec Spec.Ops Proofs.OpsRefine Proofs.OpsRefine3 Proofs.OpsRefineAll Proofs.OpsAlgebra Proofs.OpsAlgebraModel.
 Open Scope list_scope.
 Open Scope Z_scope.
 
@@ -73,6 +73,14 @@ Proof. exact not_not_boolean. Qed.
 Theorem C08_pure_stack_op_memory : forall o s m pm s' m',
   pure_stack_op o = true -> op_spec o s m pm = Some (s', m') -> m' = m.
 Proof. exact pure_stack_op_memory. Qed.
+
+(* The commutativity law carried over to the code-shaped model through the refinement theorem: with the two
+   operands exchanged the machine reaches the very same state (and has no result exactly when it had none). *)
+Theorem C08_model_commutative : forall E o a b s v v' c,
+  commutative_op o = true -> zlen (a :: b :: s) <= 4096 -> zlen (memory v) <= 10240 ->
+  step_basic E o (set_stack v (a :: b :: s)) = Ok (v', c) ->
+  step_basic E o (set_stack v (b :: a :: s)) = Ok (v', c).
+Proof. exact step_commutative. Qed.
 
 (* ---------------- concrete evaluations of the specification (stack top first) ---------------- *)
 (* Sub is lhs - rhs with rhs on top; it fails instead of wrapping *)
